@@ -249,7 +249,7 @@ def main(argv=None):
             new_viols.append(v)
 
     # Replay files
-    rdir = os.path.join(ROOT, "replays", pid)
+    rdir = os.path.join(os.environ.get("VERIF_REPLAY_DIR") or os.path.join(ROOT, "replays"), pid)
     replay_paths = []
     seen_keys = set()
     for v in new_viols:
@@ -284,9 +284,10 @@ def main(argv=None):
     )
     cov.update(extra_cov)
     ev = dict(property_id=pid, tier=args.tier, seed=seed, level=level, coverage=cov, assumptions=list(getattr(mod, "ASSUMPTIONS", [])), wall_s=round(wall, 2), violations=len(new_viols), known_findings_hit=[k for k in known_hits])
-    os.makedirs(os.path.join(ROOT, "evidence"), exist_ok=True)
+    evdir = os.environ.get("VERIF_EVIDENCE_DIR") or os.path.join(ROOT, "evidence")  # (override used only by tools/try_mut.sh so that runs on a deliberately broken tree never touch the committed evidence)
+    os.makedirs(evdir, exist_ok=True)
     if not errors:
-        with open(os.path.join(ROOT, "evidence", f"{pid}.json"), "w") as f:
+        with open(os.path.join(evdir, f"{pid}.json"), "w") as f:
             json.dump(ev, f, indent=1, default=str)
 
     print(f"[{pid}] tier={args.tier} seed={seed} cases={tot['evaluations']}/{ncases} states={tot['states']} transitions={tot['transitions']} traces={tot['traces']} nontrivial={len(digests)} outcomes={len(outcomes)} violations={tot['n_viol']} wall={wall:.1f}s" + (" CAPPED" if capped else ""))
